@@ -27,7 +27,7 @@ func init() { harness.Register(check{}) }
 func (check) ID() string { return "C03" }
 
 const (
-	valsPerCase    = 16
+	valsPerCase    = 20
 	quickRandom    = 2048   // cases of valsPerCase random values
 	thoroughRandom = 409600 // 200 x quick
 )
@@ -45,7 +45,7 @@ func (check) Cases(tier string) int { return len(table) + randomCases(tier) }
 func (check) Exhaustive(string) bool { return false }
 
 func (check) Rule() string {
-	return "setting values: a finite boundary table (0, +-1, +-2^k and +-(2^k+-1) for k in {7,8,15,16,31,32,53,63,64}, float neighbours of +-2^31/2^32/2^63/2^64/2^53, MaxFloat32 / the float32 rounding limit / MaxFloat64 / subnormals and their neighbours, +-Inf, NaN, -0, fractional values at every sized maximum, second counts at +-9223372036(.854775807) and at 2^53ns/2^62ns; each as int64, uint64, float64 and in every strconv spelling: decimal, 0x, 0X, 0b, 0o, 0NNN, 1_000, +N, N.0, Ne0, %g/%e/%E/%x/%f; plus booleans, boolean words (every strconv.ParseBool spelling, on/off/yes/no/y/n/enable..., near misses; in the random cases in every casing and now and then padded), duration strings at the int64 limits and unparsable strings) - one case per table value: the value built 4 ways (NewFrom literal; SetInt/SetUint/SetFloat/SetString/SetBool; NewFrom with ${src} references and VarExp, src literal or Set*) x 15 target kinds (+ uintptr, monitors only) x plain/*T/named/*named x struct field, map[string]T value, []T element, plus the getters Bool/Int/Uint/Float/String; then the value as TEXT the library reads again, in 9 forms (\"${src:D}\" and \"${src:?msg}\" with src set, literal or Set*: the library renders the value itself; \"${absent:TEXT}\"; \"${other:+TEXT}\"; \"${hi}${lo}\" and \"TE${lo}\" / \"${hi}XT\" with TEXT cut at a random place; \"${ENVX}\" and \"${ENVX:D}\" answered by a Resolve option with parse.EnvConfig/DefaultConfig/NoopConfig; a -E style flag value f=TEXT), TEXT = the string value itself when it is a word (letters, digits, + - . _ only) or the decimal numeral of an int64/uint64 value, each form x every target type through one random route + the getters; then random cases of 16 values each within +-4 (ulp) of a boundary, every kind and getter through one random (construction, variant, route) and once more through one of three random applicable text forms. Non-trivial = the setting value is not zero/false/blank; distinct = distinct (value class = kind, syntax, sign, bit length/exponent, fractional?; target type; construction/route)."
+	return "setting values: a finite boundary table (0, +-1, +-2^k and +-(2^k+-1) for k in {7,8,15,16,31,32,53,63,64}, float neighbours of +-2^31/2^32/2^63/2^64/2^53, MaxFloat32 / the float32 rounding limit / MaxFloat64 / subnormals and their neighbours, +-Inf, NaN, -0, fractional values at every sized maximum, second counts at +-9223372036(.854775807) and at 2^53ns/2^62ns; each as int64, uint64, float64 and in every strconv spelling: decimal, 0x, 0X, 0b, 0o, 0NNN, 1_000, +N, N.0, Ne0, %g/%e/%E/%x/%f; plus booleans, boolean words (every strconv.ParseBool spelling, on/off/yes/no/y/n/enable..., near misses; in the random cases in every casing and now and then padded), duration strings at the int64 limits and unparsable strings) - one case per table value: the value built 4 ways (NewFrom literal; SetInt/SetUint/SetFloat/SetString/SetBool; NewFrom with ${src} references and VarExp, src literal or Set*) x 15 target kinds (+ uintptr, monitors only) x plain/*T/named/*named x struct field, map[string]T value, []T element, plus the getters Bool/Int/Uint/Float/String; then the value as TEXT the library reads again, in 9 forms (\"${src:D}\" and \"${src:?msg}\" with src set, literal or Set*: the library renders the value itself; \"${absent:TEXT}\"; \"${other:+TEXT}\"; \"${hi}${lo}\" and \"TE${lo}\" / \"${hi}XT\" with TEXT cut at a random place; \"${ENVX}\" and \"${ENVX:D}\" answered by a Resolve option with parse.EnvConfig/DefaultConfig/NoopConfig; a -E style flag value f=TEXT), TEXT = the string value itself when it is a word (letters, digits, + - . _ only) or the decimal numeral of an int64/uint64 value, each form x every target type through one random route + the getters; Go INPUT values of the sized types (table: the edges of int8..int64 / uint8..uint64, 33 float32 values - edges, neighbours of 2^31/2^63/2^64, values whose shortest decimal text is another number such as float32(1e15) - round robin over five containers: interface{} entries, typed map / slice, struct fields, each through NewFrom, the first and a pointer to the last through Merge) and numerals behind a run of two or more signs (++7, +-7, --0x10: no numeral, an error for every numeric target on every route, verbatim from String); then random cases of 20 values each (2 in 19 a float32 Go input: random bit patterns, edges and neighbours, 25..64 bit integers with a random 24 bit mantissa, float32 next to short decimals; 1 in 19 a boundary numeral in a random spelling behind a random run of signs; a third of the other numbers handed over as a random sized Go type that holds them exactly, in a random container) within +-4 (ulp) of a boundary, every kind and getter through one random (construction, variant, route) and once more through one of three random applicable text forms. Non-trivial = the setting value is not zero/false/blank; distinct = distinct (value class = kind, syntax, sign, bit length/exponent, fractional?; target type; construction/route)."
 }
 
 func (check) Assumptions() []string {
@@ -55,7 +55,8 @@ func (check) Assumptions() []string {
 		"float seconds -> Duration: exact when seconds*1e9 is an integer, else |stored - exact| < 1ns; a deviation explained by rounding the product to float64 gets its own signature (-imprecise)",
 		"a fractional float whose truncation fits but which lies beyond the range as a real (127.9 into int8) may be an error or the truncated value",
 		"not compared: which error; number<->bool and bool->number/Duration (no mathematical reading); on text routes the words other than strconv's that the expansion / flag parser reads as booleans (on/off; a STRING setting with such a word, any casing, is an error like every string strconv.ParseBool refuses: signature ...-accepts-boolean-word-strconv-refuses); the text a float renders to (it must parse back to the same float64); sign of zero; NaN payload",
-		"an error where a value was possible is reported only for in-range integer->integer, integer->float64 when exactly representable, and float64->float64 (literal numbers, any route)",
+		"an error where a value was possible is reported only for in-range integer->integer, integer->float64 when exactly representable, float64->float64, and a float a float32 holds exactly into a float32 target (literal numbers, any route)",
+		"a setting made from a Go value has the mathematical value of that Go value whatever its Go type (int8 ... uint64, float32, float64): the expectation is computed from the value alone; a float32 input is the real number the float32 is, not the decimal text that identifies it among the float32 values (an observation that text explains gets the signature float32-input-taken-by-its-shortest-decimal-text)",
 		"a named type over time.Duration (type D time.Duration, also *D, as map value and slice element) is generated and converted but NOT held to the seconds reading: to reflection it is a named int64 like any other (Kind int64, no methods, nothing links it to time.Duration), so no library can give it another meaning than `type N int64`, whose values this check pins to the bare number; only panics are reported, the named_duration_* monitors count what is stored (switch judgeNamedDurationAsSeconds turns the duration oracle on: sig number-to-named-duration-taken-as-nanoseconds)",
 		"monitor only (an error is always allowed): plain_ref_fails_where_value_converts counts (value, target, route) triples of the table cases in which the literal / Set* value converts and a plain \"${src}\" reference to it returns an error",
 		"text the library reads again (expansion forms other than a plain \"${src}\", resolver answers, flag values): only words without white space, quotes, brackets, commas, colons, $ and not \"null\", so that list/object/quoting syntax and the splice syntax play no part. The reference for text T: an integer numeral in Go's base-0 syntax (math/big, any length, explicit + allowed) that fits int64 or uint64 must reach integer targets exactly or as an error, string targets as a numeral of exactly that value (any spelling, read back with math/big), float targets as the nearest float; a numeral both integer and floating point syntax read, differently (\"012\": 10 / 12), is the integer on every route (next entry); an integer no 64 bit type holds is out of range for every integer target (always an error; a stored value equal to the float64 next to it - the band -2^63-1024..-2^63-1, whose float64 is -2^63 - gets the signature reparsed-integer-beyond-64-bits-stored-as-float64-neighbour), for float targets the nearest float64 of either reading, for string targets its own text, an exact numeral or a text of the float64 strconv.ParseFloat reads it as; floating point texts mean the float64 strconv.ParseFloat reads; boolean words are not pinned for numeric and string targets, numerals not for bool targets; an error is never reported as spurious on these routes; which of the forms yields which Go type inside the library is not looked at",
@@ -210,6 +211,10 @@ func build(s src, cons int) (*built, error) {
 	ref := "${src}"
 	switch cons {
 	case cLit:
+		if s.gk != reflect.Invalid {
+			b.c, err = typedInput(x, s.shape, nil, nil)
+			break
+		}
 		b.c, err = ucfg.NewFrom(map[string]interface{}{"f": x, "m": map[string]interface{}{"k": x}, "l": []interface{}{x}})
 	case cSet:
 		b.c = ucfg.New()
@@ -221,6 +226,10 @@ func build(s src, cons int) (*built, error) {
 		}
 	case cRefLit:
 		b.opts = varOpts
+		if s.gk != reflect.Invalid {
+			b.c, err = typedInput(ref, s.shape, map[string]interface{}{"src": x}, b.opts)
+			break
+		}
 		b.c, err = ucfg.NewFrom(map[string]interface{}{"f": ref, "m": map[string]interface{}{"k": ref}, "l": []interface{}{ref}, "src": x}, b.opts...)
 	case cRefSet:
 		b.opts = varOpts
@@ -313,6 +322,8 @@ func newRunner(res *harness.R, r *rand.Rand, s src, verbose bool) *runner {
 		ru.tsyntax = "word"
 		if ti.class != "bool" && ti.class != "word" {
 			ru.tsyntax = textSyntax(ru.text)
+		} else if ti.class == "word" && signRunOf(ru.text) != "" {
+			ru.tsyntax = "sign-run"
 		}
 		res.SetAdd("text_syntax", ru.tsyntax)
 		if ti.v != nil {
@@ -394,6 +405,9 @@ func (ru *runner) applies(cons int) bool {
 func (ru *runner) expFor(cons, ki int) (*expectation, string) {
 	switch {
 	case cons < nDirect:
+		if ru.carriesGoType(cons) {
+			return &ru.exp[ki], ru.s.gk.String() + "-input"
+		}
 		return &ru.exp[ki], ru.s.kindName()
 	case rendered(cons) && ru.s.kind != 's':
 		return &ru.expR[ki], "reparsed-" + ru.s.kindName()
@@ -401,6 +415,62 @@ func (ru *runner) expFor(cons, ki int) (*expectation, string) {
 		return &ru.expR[ki], "reparsed-text:" + ru.tsyntax
 	}
 	return &ru.expT[ki], "reparsed-text:" + ru.tsyntax
+}
+
+// carriesGoType: in this construction the value enters the library as a Go
+// value of the sized type s.gk (not through a Set* call).
+func (ru *runner) carriesGoType(cons int) bool {
+	if ru.s.gk == reflect.Invalid {
+		return false
+	}
+	return cons == cLit || cons == cRefLit || (rendered(cons) && !ru.sub.viaSet)
+}
+
+const sigFloat32Decimal = "float32-input-taken-by-its-shortest-decimal-text"
+
+// float32ByDecimal reports whether the observation is what the float32 input's
+// shortest decimal text - another real number than the input - explains: the
+// stored value, or the error, is the one that number would get.
+func (ru *runner) float32ByDecimal(cons int, k *tkind, err error, got reflect.Value, present bool) bool {
+	if !ru.carriesGoType(cons) || ru.s.gk != reflect.Float32 || !shortestDecimalDiffers(float32(ru.s.f)) {
+		return false
+	}
+	d, perr := strconv.ParseFloat(strconv.FormatFloat(ru.s.f, 'g', -1, 32), 64)
+	if perr != nil {
+		return false
+	}
+	alt := expect(srcF(d), k)
+	if err != nil {
+		return alt.mode == mErr
+	}
+	return present && (alt.mode == mExact || alt.mode == mEither) && alt.matches(k, got)
+}
+
+// goInputMonitors: which Go input types were converted.
+func (ru *runner) goInputMonitors(cons int, k *tkind) {
+	if !ru.carriesGoType(cons) {
+		return
+	}
+	ru.res.Ev("go_input_conversions", 1)
+	ru.res.SetAdd("go_input_kind", ru.s.gk.String())
+	ru.res.SetAdd("go_input_container", shapeNames[ru.s.shape])
+	if ru.s.gk != reflect.Float32 {
+		return
+	}
+	ru.res.Ev("float32_input_conversions", 1)
+	if !shortestDecimalDiffers(float32(ru.s.f)) {
+		return
+	}
+	ru.res.Ev("float32_input_whose_shortest_decimal_is_another_number", 1)
+	d, _ := strconv.ParseFloat(strconv.FormatFloat(ru.s.f, 'g', -1, 32), 64)
+	a, b := expect(srcF(d), k), &ru.exp[kindIndex(k)]
+	switch {
+	case a.mode == mUnpinned || b.mode == mUnpinned:
+	case (a.mode == mErr) != (b.mode == mErr):
+		ru.res.Ev("float32_input_decimal_reading_flips_value_and_error_for_the_target", 1)
+	case a.mode != mErr && a.describe() != b.describe():
+		ru.res.Ev("float32_input_decimal_reading_is_another_value_for_the_target", 1)
+	}
 }
 
 // textMonitors: what went through a text route.
@@ -415,6 +485,11 @@ func (ru *runner) textMonitors(cons int) {
 	}
 	if ru.tNoF64 {
 		ru.res.Ev("text_integer_no_float64_holds", 1)
+	}
+	if ru.tsyntax == "sign-run" {
+		ru.res.Ev("text_sign_run_numeral_conversions", 1)
+		ru.res.Ev("text_sign_run_numeral_"+consNames[cons], 1)
+		ru.res.SetAdd("text_sign_run", signRunOf(ru.text))
 	}
 	if cons == xResolver || cons == xResolverDef {
 		ru.res.SetAdd("text_resolver_parse_config", parseCfgs[ru.sub.pcfg].name)
@@ -627,6 +702,12 @@ func errClass(err error) string {
 func (ru *runner) judge(cons, ki int, k *tkind, to string, err error, got reflect.Value, present bool, call func() string) {
 	e, from := ru.expFor(cons, ki)
 	namedDur := to == "named-duration"
+	ru.goInputMonitors(cons, k)
+	if cons < nDirect && ru.s.kind == 's' && signRunOf(ru.s.s) != "" {
+		ru.res.Ev("string_sign_run_numeral_direct_conversions", 1)
+	}
+	// a numeral behind a run of signs that a text route turned into a value
+	signRunRead := cons >= nDirect && ru.tsyntax == "sign-run"
 	if k.class == cBool && cons < nDirect && ru.s.kind == 's' {
 		// boolean spellings of STRING settings
 		switch {
@@ -714,7 +795,11 @@ func (ru *runner) judge(cons, ki int, k *tkind, to string, err error, got reflec
 			ru.outcome(k, "error-allowed")
 		default:
 			if e.strict {
-				ru.res.Violate("spurious-error:"+from+"->"+to, "%s returned error %q, expected %s", call(), err.Error(), e.describe())
+				sig := "spurious-error:" + from + "->" + to
+				if ru.float32ByDecimal(cons, k, err, got, false) {
+					sig = sigFloat32Decimal
+				}
+				ru.res.Violate(sig, "%s returned error %q, expected %s", call(), err.Error(), e.describe())
 				ru.outcome(k, "error-spurious")
 			} else {
 				ru.outcome(k, "error-tolerated")
@@ -744,6 +829,13 @@ func (ru *runner) judge(cons, ki int, k *tkind, to string, err error, got reflec
 			// one defect whatever the 64 bit target is called
 			sig = "reparsed-integer-beyond-64-bits-stored-as-float64-neighbour"
 		}
+		if ru.float32ByDecimal(cons, k, err, got, present) {
+			sig = sigFloat32Decimal
+		}
+		if signRunRead {
+			// one defect whatever the target is called
+			sig = "reparsed-text:sign-run-numeral-read-as-a-number"
+		}
 		ru.res.Violate(sig, "%s returned nil error and stored %s, expected %s", call(), describeGot(k, got), e.describe())
 		ru.outcome(k, "value-where-error-required")
 		return
@@ -770,6 +862,12 @@ func (ru *runner) judge(cons, ki int, k *tkind, to string, err error, got reflec
 	if e.decimal != nil && k.class == cFloat && (sameFloat(got.Float(), *e.decimal) || sameFloat(got.Float(), float64(float32(*e.decimal)))) {
 		// one defect whatever the float target is called and whichever route
 		sig = "float-target-reads-octal-numeral-as-decimal"
+	}
+	if ru.float32ByDecimal(cons, k, err, got, present) {
+		sig = sigFloat32Decimal
+	}
+	if signRunRead {
+		sig = "reparsed-text:sign-run-numeral-read-as-a-number"
 	}
 	ru.res.Violate(sig, "%s returned nil error and stored %s, expected %s", call(), describeGot(k, got), e.describe())
 	ru.outcome(k, "wrong-value")
